@@ -123,14 +123,21 @@ theorem target_type_rule_eq_protoc (t : Nat) (f : FieldS) :
 
 /-- every field named by an option that strict interpretation accepts allows the element's target
     type (first name part; the same check guards every later part and every message-literal field) -/
+theorem fieldUsage_none (cx : Cx) (f : FieldS) (h : fieldUsage cx f = none) : checkFieldUsage cx.target f = none := by
+  unfold fieldUsage firstErr at h
+  split at h
+  · simp at h
+  · exact h
+
 theorem accepted_first_part_allows_target (cx : Cx) (mi : Nat) (pm : PM) (p : NamePart) (rest : List NamePart)
     (v : AV) (f : FieldS) (hf : resolvePart cx mi p = .ok f)
     (hok : (interpField cx mi pm (p :: rest) v).err = none) :
     f.targets = [] ∨ cx.target ∈ f.targets := by
   rw [← target_type_rule]
+  apply fieldUsage_none
   unfold interpField at hok
   simp only [hf] at hok
-  cases hc : checkFieldUsage cx.target f with
+  cases hc : fieldUsage cx f with
   | none => rfl
   | some e =>
     exfalso
@@ -364,18 +371,18 @@ theorem path_walk_spec (cx : Cx) (v : AV) (hv : v.isArr = false) :
             · simp only [hm, hrp, Bool.false_eq_true, if_false] at hok ⊢
               have newCase : ∀ (hne : ∀ sub, pmGet pm f.num ≠ some (.msg sub)),
                   (if oneofConflict cx.sch mi pm f = true then
-                      ({ pm := pm, ok := false, err := firstErr (checkFieldUsage cx.target f) (some Err.oneof) } : SR)
+                      ({ pm := pm, ok := false, err := firstErr (fieldUsage cx f) (some Err.oneof) } : SR)
                     else
                       { pm := pmSet pm f.num (PV.msg (interpField cx f.kind.msgIdx [] (q :: qs) v).pm),
                         ok := (interpField cx f.kind.msgIdx [] (q :: qs) v).ok,
-                        err := firstErr (checkFieldUsage cx.target f) (interpField cx f.kind.msgIdx [] (q :: qs) v).err }).ok = true →
+                        err := firstErr (fieldUsage cx f) (interpField cx f.kind.msgIdx [] (q :: qs) v).err }).ok = true →
                   ∃ pv, (fieldValue cx leaf v false).val = some pv ∧
                     getPath (if oneofConflict cx.sch mi pm f = true then
-                      ({ pm := pm, ok := false, err := firstErr (checkFieldUsage cx.target f) (some Err.oneof) } : SR)
+                      ({ pm := pm, ok := false, err := firstErr (fieldUsage cx f) (some Err.oneof) } : SR)
                     else
                       { pm := pmSet pm f.num (PV.msg (interpField cx f.kind.msgIdx [] (q :: qs) v).pm),
                         ok := (interpField cx f.kind.msgIdx [] (q :: qs) v).ok,
-                        err := firstErr (checkFieldUsage cx.target f) (interpField cx f.kind.msgIdx [] (q :: qs) v).err }).pm
+                        err := firstErr (fieldUsage cx f) (interpField cx f.kind.msgIdx [] (q :: qs) v).err }).pm
                       (List.map (fun x => x.num) (f :: g :: gs)) = some pv := by
                 intro _ hok2
                 by_cases hoc : oneofConflict cx.sch mi pm f = true
@@ -408,7 +415,7 @@ theorem set_twice_rejected (cx : Cx) (mi : Nat) (pm : PM) (p : NamePart) (f : Fi
     (hcard : f.card ≠ .rep) (hmap : f.isMap = false) (hhas : pmHas pm f = true) :
     (interpField cx mi pm [p] v).ok = false ∧ (interpField cx mi pm [p] v).pm = pm ∧
     ((fieldValue cx f v false).val ≠ none → oneofConflict cx.sch mi pm f = false →
-        (fieldValue cx f v false).err = none → checkFieldUsage cx.target f = none →
+        (fieldValue cx f v false).err = none → fieldUsage cx f = none →
         (interpField cx mi pm [p] v).err = some .dup) := by
   have hc : (f.card == Card.rep) = false := by cases h : f.card <;> simp_all
   have hcore : setOptionField cx mi pm f v false = setOne cx mi pm f (fieldValue cx f v false) := by
@@ -818,8 +825,8 @@ def C20_validated_full : Prop :=
     introduced in edition 2024 (1001) -/
 def vSchema : Schema :=
   { enums := [],
-    msgs := [⟨"O", "O", "", [⟨"features", 21, .msg 1, .opt, false, true, none, [], 0, 0, "O.features", ""⟩]⟩,
-             ⟨"F", "F", "", [⟨"x", 1, .i32, .opt, false, true, none, [], 1001, 0, "F.x", ""⟩]⟩],
+    msgs := [⟨"O", "O", "", [⟨"features", 21, .msg 1, .opt, false, true, none, [], 0, 0, "O.features", "", false, false⟩], false⟩,
+             ⟨"F", "F", "", [⟨"x", 1, .i32, .opt, false, true, none, [], 1001, 0, "F.x", "", false, false⟩], false⟩],
     exts := [], optIdx := [0, 0, 0, 0, 0, 0, 0, 0, 0] }
 
 def vStmt : Stmt := ⟨[⟨false, "features"⟩, ⟨false, "x"⟩], .uint 1⟩
@@ -880,6 +887,40 @@ theorem features_validated_nonfield (s : Schema) (target edition mi : Nat) (stmt
               simp at hv
               exact hv.2
 
+/-! ## Feature lifetimes and the message-set gate -/
+
+/-- `feature_lifetime_rule` (validateFeatureSupport): a feature field may be used in edition `e` iff
+    it has been introduced (edition_introduced ≤ e) and not yet removed (e < edition_removed);
+    edition_deprecated never rejects -/
+theorem feature_lifetime_rule (e : Nat) (f : FieldS) :
+    featureFieldOK e f = true ↔ (f.intro = 0 ∨ f.intro ≤ e) ∧ (f.removed = 0 ∨ e < f.removed) := by
+  unfold featureFieldOK
+  simp only [Bool.and_eq_true, Bool.not_eq_true', Bool.and_eq_false_iff, bne_eq_false_iff_eq,
+    decide_eq_false_iff_not, Nat.not_lt, ge_iff_le, Nat.not_le]
+
+/-- the same rule for the values of an enum-typed feature; unknown numbers are not checked -/
+theorem enum_value_lifetime_rule (en : EnumS) (e : Nat) (n : Int) :
+    enumValueOK en e n = true ↔
+      ∀ i r, en.life.find? (·.1 == n) = some (n, i, r) → (i = 0 ∨ i ≤ e) ∧ (r = 0 ∨ e < r) := by
+  unfold enumValueOK
+  cases h : en.life.find? (·.1 == n) with
+  | none => simp
+  | some x =>
+    obtain ⟨m, i, r⟩ := x
+    have hm : m = n := by
+      have := List.find?_some h
+      simpa using this
+    subst hm
+    simp only [Bool.and_eq_true, Bool.not_eq_true', Bool.and_eq_false_iff, bne_eq_false_iff_eq,
+      decide_eq_false_iff_not, Nat.not_lt, ge_iff_le, Nat.not_le, Option.some.injEq, Prod.mk.injEq, true_and]
+    constructor
+    · intro hh i' r' heq; obtain ⟨h1, h2⟩ := heq; subst h1; subst h2; exact hh
+    · intro hh; exact hh i r ⟨rfl, rfl⟩
+
+/-- only extensions of a message with message-set wire format hit the gate -/
+theorem msgSetGate_ordinary_field (s : Schema) (f : FieldS) (h : f.extendee = "") : msgSetGate s f = none := by
+  simp [msgSetGate, h]
+
 /-! ## Non-vacuity -/
 
 /-- the hypotheses of `scalar_coercion_eq` are satisfiable and the conclusion is not trivial -/
@@ -912,3 +953,5 @@ end PCV.Props.C20
 #print axioms PCV.Props.C20.features_validated_nonfield
 #print axioms PCV.Props.C20.foreign_extension_in_literal_rejected
 #print axioms PCV.Props.C20.lowercase_match_of_non_group_not_found
+#print axioms PCV.Props.C20.feature_lifetime_rule
+#print axioms PCV.Props.C20.enum_value_lifetime_rule
